@@ -46,13 +46,22 @@ CLAIM = dict(
          '(C07_pinned_order_dependent, witness over Qc). '
          'ADAPTIVE (d >= 3; contracts: matrix_skeleton returns inner size <= its r argument, orthogonalize keeps mode '
          'sizes): every TT-rank of the result is <= r and mode sizes are kept (C07_adaptive_ranks). '
-         'The same for als_func with y[sigma], H[k][sigma,:] (C07_als_func_sample_order).',
+         'The same for als_func with y[sigma], H[k][sigma,:] (C07_als_func_sample_order). '
+         'ENTRY PATH of als_func (fh=None): the basis matrices built from X, a, b are rectangular and hold T_i of the '
+         'scaled, clipped points (scale_cheb of the C18 model, func_basis1 of the C12 model) for every box and every '
+         'point (C07_cheb_basis_wf, C07_cheb_basis_entry), so shape, descent and last-core optimality hold with the '
+         'objective measured in that basis (C07_als_func_cheb_shape, C07_als_func_cheb_descends, '
+         'C07_als_func_cheb_last_core_optimal).',
     note='The models are tied to /repo on every run: exact Qc evaluation of _optimize_core and of small als / als_func '
-         'runs; binary64 (PrimFloat) evaluation of the same Gallina terms for 1..3 sweeps over all option paths (e, '
+         'runs; als_func also through its default entry path (X, a, b -> poi_scale cheb -> func_basis) on boxes '
+         'asymmetric about 0 and of length != 2 with boundary and outside points, in binary64 and exactly over Qc, with '
+         'an independent numpy.polynomial.chebyshev objective in the search; '
+         'binary64 (PrimFloat) evaluation of the same Gallina terms for 1..3 sweeps over all option paths (e, '
          'e_vld, cb, nswp=0, allow_skip_cores, permuted samples, restart) within 1e-9 relative, status / nswp / stop '
          'exact; rank-adaptive runs with the recorded outputs of orthogonalize / matrix_skeleton replayed. '
          'Not modelled: allow_swap=True, update_sol, lamb=None, use_stab, log, info[t], info[r], negative indices; '
-         'als_func with n_max set or with a basis wider than the mode size of A0; in the adaptive mode an index pair '
+         'als_func with n_max set, with a basis wider than the mode size of A0 (unequal mode sizes in the default path) '
+         'or with vector-valued a, b; in the adaptive mode an index pair '
          'without sample leaves np.empty memory in the code (the model puts 0, the correspondence covers all pairs). '
          'als(nswp=0) executes one sweep (proved). chain 1 Y 1 (matching ranks) is a hypothesis of the '
          'restart / order / descent theorems.',
